@@ -21,6 +21,7 @@ def analyse(ctx: CheckContext, p: Program):
     st = p.find_class("Stream")
     if st is not None:
         ctx.guard(derived.check_stale_order, ctx, r, st)
+        ctx.guard(derived.check_setter_siblings, ctx, r, st, ["t_supply", "t_target", "heat_flow", "dt_cont", "htc"])
 
 
 def run(ctx: CheckContext):
@@ -36,6 +37,8 @@ def run(ctx: CheckContext):
                 "            self._CP = value / abs(self._t_supply - self._t_target)\n            self._RCP_prod = self._htr * self._CP",
                 "            self._RCP_prod = self._htr * self._CP\n            self._CP = value / abs(self._t_supply - self._t_target)", "DERIVED-SEQ")
     hx = "OpenPinch/utils/heat_exchanger.py"
+    run_control(ctx, "C15/film-coefficient-setter-skips-recompute", analyse, p.root, "OpenPinch/classes/stream.py",
+                "        self._htc = value\n        self._update_attributes()\n", "        self._htc = value\n        self._htr = 1 / value\n", "DERIVED-SIB")
     run_control(ctx, "C15/guard-weakened", analyse, p.root, hx,
                 "if delta_T1.round(6).min() <= 0 or delta_T2.round(6).min() <= 0:", "if delta_T1.round(6).min() <= 0:", expect_rule="LMTD-GUARD")
     run_control(ctx, "C15/cost-factor-memoised", analyse, p.root, "OpenPinch/utils/costing.py",
